@@ -47,16 +47,19 @@ theorem ite_pair_append {α : Type} (c : Prop) [Decidable c] (a1 a2 b1 b2 r : Li
   · exact h1 ‹_›
   · exact h2 ‹_›
 
+theorem expSign_append (cs : List Char) : (expSign cs).1 ++ (expSign cs).2 = cs := by
+  unfold expSign; split <;> simp
+
 theorem numExp_append (cs : List Char) : (numExp cs).1 ++ (numExp cs).2 = cs := by
   unfold numExp
   split
   · split
     · simp only
-      split
-      all_goals
-        apply ite_pair_append
-        · intro _; simp
-        · intro _; simp [takeWhileC_append]
+      apply ite_pair_append
+      · intro _; simp
+      · intro _
+        rename_i e r _
+        simp only [List.cons_append, List.append_assoc, takeWhileC_append, expSign_append]
     · simp
   · simp
 
